@@ -10,6 +10,7 @@ from sim.core import EndRun, close
 from sim.models.change import cusum_step, ph_rows
 
 PROP = "C04"
+FORKS = True      # snapshot / restore events (core.Ctx.maybe_fork)
 LEVEL = "exploration"
 RULE = (
     "seeded real-valued streams (gaussian / ramp / heavy-tailed, level and variance shifts, 60-500 samples) x "
@@ -95,6 +96,7 @@ def run_ph(case, ctx):
     epoch, epoch_no, alarms, prev = [], 0, 0, None
     for t, x in enumerate(case["events"]):
         ctx.step = t
+        det = ctx.maybe_fork(det)
         if prev == "drift":
             epoch, epoch_no = [], epoch_no + 1
         epoch.append(x)
@@ -165,6 +167,7 @@ def run_cusum(case, ctx):
     allx, epoch, epoch_no, alarms, prev = [], [], 0, 0, None
     for t, x in enumerate(case["events"]):
         ctx.step = t
+        det = ctx.maybe_fork(det)
         if prev == "drift":
             # documented carry-over: re-estimate from the last burn_in observations
             target, sd = float(np.mean(allx[-b:])), float(np.std(allx[-b:]))
